@@ -314,7 +314,22 @@ def rand_session_ops(rng, nops=30, api=True, malformed=False, faults=False):
         else:
             if faults: ops.append("x:%d:%s" % (rng.randrange(4), rng.choice(["once", "perm"])))
             else: ops.append("b:2d")
+    if api:
+        ops = split_with_api(rng, ops)
     return ops
+
+def split_with_api(rng, ops, p=12):
+    """now and then an application call (Cli::write, set_prompt) lands BETWEEN the bytes of one key: inside a multi-byte character, inside
+    an ESC [ sequence, between CR and LF"""
+    out = []
+    for op in ops:
+        if op.startswith("b:") and len(op) >= 6 and op[2:] != "." and rng.randrange(p) == 0:
+            h = op[2:]
+            k = 2 * rng.randrange(1, len(h) // 2)
+            out += ["b:" + h[:k], rng.choice(["w:s6f", "w:s6f6b0a", "p:%d" % rng.randrange(4), "w:"]), "b:" + h[k:]]
+        else:
+            out.append(op)
+    return out
 
 SMALL_CAPS = [0, 1, 2, 3, 4, 5, 7, 8, 8, 12, 16, 16, 24, 40, 64]
 
@@ -359,6 +374,7 @@ def rand_session_w1(rng, nops=30):
                 else: ws.append(rng.choice("sluc") + hx(t))
             ops.append("w:" + ",".join(ws))
         else: ops.append("p:%d" % rng.randrange(4))
+    ops = split_with_api(rng, ops)
     return "%d %d %d raw %s" % (cap, hcap, rng.randrange(4), ";".join(ops))
 
 
